@@ -46,6 +46,8 @@ def _build(mi, bi, i, j, rt, tag, shared: bool):
     ni, nj = b.nodes[i], b.nodes[j]
     if is_descendant(nj, ni):
         return None                     # would be a cycle: see `cycles`
+    if rt - 2 >= len(RETAGS):
+        return None
     if rt > 0:
         ni.tag = tag if rt == 1 else pick(RETAGS, rt - 2)
     docs.place(b, j, ni if shared else clone(ni))
@@ -137,7 +139,7 @@ CONDITIONS = [
      'thorough': 900,
      'bound': 'one slice per (model, base document, i mod 3): every ordered '
               'pair (i, j) of nodes with i not an ancestor of j; node i '
-              'optionally retagged with a FREE non-core tag or one of 22 '
+              'optionally retagged with a FREE non-core tag or one of 20 '
               'palette tags (quick: no retag or !!str only); aliased vs. expanded '
               'document'},
     {'fn': 'alias_reach', 'slices': [_slice_for('loose', 0, 0)],
